@@ -82,7 +82,7 @@ func playHandover(in handIn) handObs {
 		<-src.WriteMoreCh()   // sendMediaSegment: capture final message
 		src.NrBytesCh() <- -1 // signal the end to Read
 	}()
-	timeout := time.After(20 * time.Second)
+	timeout := time.After(5 * time.Second)
 	select {
 	case <-writerDone:
 	case <-timeout:
@@ -108,6 +108,7 @@ func runHandover(c *lib.Ctx, terms *[]string) error {
 		big = 18
 	}
 	caps := []int{1, 2, 3, 4, 5, 8, 13, 16, 64}
+	deadlocks := 0
 	for i := 0; i < n+big; i++ {
 		var in handIn
 		if i < n {
@@ -169,6 +170,11 @@ func runHandover(c *lib.Ctx, terms *[]string) error {
 		want := bytes.Join(handStream(in.Writes), nil)
 		if obs.Deadlock != "" {
 			c.Fail(cid, "handover:deadlock", obs.Deadlock, in)
+			deadlocks++
+			if deadlocks >= 3 {
+				c.Res.Notes = append(c.Res.Notes, "hand-over: three runs blocked, remaining hand-over cases skipped")
+				break
+			}
 			continue
 		}
 		equal := bytes.Equal(obs.Got, want)
